@@ -118,6 +118,16 @@ Theorem import_no_overwrite : forall v st kt u k c ks,
 Proof. exact import_existing_refused. Qed.
 Print Assumptions import_no_overwrite.
 
+(* ids are exact: an import under ANY caller-chosen id — e.g. another spelling of an id in use (blanks around, another
+   case: the model's ids are compared as whole atoms, and the correspondence gives every distinct id STRING its own atom
+   and checks that the id the key manager reads, writes and returns is the caller's string) — leaves the entry of every
+   id as it was: under another id because it is another id, under the same id because it is refused *)
+Theorem import_keeps_every_entry : forall st kt u k c id ks,
+  lookup (st_store st) id = Some ks ->
+  lookup (st_store (fst (step Fixed st (KImport kt (Some u) k, c)))) id = Some ks.
+Proof. exact import_keeps_other_entries. Qed.
+Print Assumptions import_keeps_every_entry.
+
 Theorem no_put_overwrites : forall v s p o, puts_fresh s (fst (plan v s p o)).
 Proof. exact plan_puts_fresh. Qed.
 Print Assumptions no_put_overwrites.
